@@ -193,7 +193,7 @@ func objectSize(args ...Object) Object {
 func ifNotExists(args ...Object) Object {
 	obj := args[0]
 
-	if obj == nil || obj.Type() == ObjectTypeNull {
+	if isUndefined(obj) {
 		return args[1]
 	}
 
